@@ -73,8 +73,14 @@ theorem frameProvider_of_progOK {P : PCtx} (hP : ProgOK P) : FrameProvider P := 
   intro X cfg K cur hR f ce cb k st σ ic bcs w1 hf hb hlen
   cases hR with
   | main _ _ => exact frame_nospill (by simp [mainCfg]) rfl hb
-  | @sub f0 sd fr cs' _ hsd _ _ _ =>
-    have hS := hP f0 sd hsd
+  | @sub f0 sd fr cs' hpg hsd hr0 _ _ =>
+    have hpres : Present P f0 := by
+      have := X.hG
+      rw [hr0, hpg] at this
+      simp only [PProg.graphOf, Option.map_eq_some_iff] at this
+      obtain ⟨a, ha, _⟩ := this
+      simp only [Present, ha, Option.isSome_some]
+    have hS := hP f0 sd hsd hpres
     by_cases hre : sd.reenters.contains f = true
     · by_cases hemp : (spillSlots sd).isEmpty = true
       · -- no local slot: nothing is saved on either side
@@ -162,18 +168,20 @@ theorem failsP_of_fails {s : Nat} (hs : s = Pg.start)
 end
 
 /-- the program graph matches every result of the source evaluation of the main tree -/
-theorem main_graph {version : Nat} {p : Prog} {Pg : PProg} (cx : Ctx)
-    (hg : genProg version false p = .ok Pg) (hf : inFragmentR p = true)
+theorem main_graph_of {version : Nat} {p : Prog} {Pg : PProg} (cx : Ctx)
+    (hP : ProgOK ⟨cx, p, Pg, version⟩) (hC : CallPresent ⟨cx, p, Pg, version⟩)
+    (hmain : Pg.main[0]? = some ({} : Block) ∧
+      ShapeR Pg.main { version := version, inSub := false, callees := calleesOf p, markIndex := false }
+        (if hasReturn p.main then p.main else .ret (some p.main)) Pg.start 0 none)
+    (hwm : mainOk p = true)
     (w0 : World) (fuel : Nat) {r : Res} {w' : World}
     (hev : eval ⟨cx, p, none⟩ fuel p.main w0 = (r, w')) : FinalP cx Pg w0 r w' := by
-  have hP := progOK_of_gen cx hg hf
   have hF := frameProvider_of_progOK hP
   have hR0 : RoutOK ⟨cx, p, Pg, version⟩ (X0 Pg) (mainCfg ⟨cx, p, Pg, version⟩) (PCtx.K ⟨cx, p, Pg, version⟩ true) none :=
     .main rfl rfl
-  have all := sound_all hP hF fuel (X0 Pg) _ _ _ hR0
-  obtain ⟨hexit, hshape⟩ := genProg_main hg
-  simp only [inFragmentR, mainOk, Bool.and_eq_true, Bool.or_eq_true] at hf
-  have hwm := hf.1.1
+  have all := sound_all hP hC hF fuel (X0 Pg) _ _ _ hR0
+  obtain ⟨hexit, hshape⟩ := hmain
+  simp only [mainOk, Bool.or_eq_true] at hwm
   by_cases hret : hasReturn p.main = true
   · simp only [hret, if_true] at hshape
     have key : ∀ n, wtR (PCtx.K ⟨cx, p, Pg, version⟩ true) false true n p.main = true → FinalP cx Pg w0 r w' := by
@@ -228,6 +236,15 @@ theorem main_graph {version : Nat} {p : Prog} {Pg : PProg} (cx : Ctx)
       rcases hwm with hw | hw
       · exact key 0 hw (by omega)
       · exact key 1 hw (by omega)
+
+theorem main_graph {version : Nat} {p : Prog} {Pg : PProg} (cx : Ctx)
+    (hg : genProg version false p = .ok Pg) (hf : inFragmentR p = true)
+    (w0 : World) (fuel : Nat) {r : Res} {w' : World}
+    (hev : eval ⟨cx, p, none⟩ fuel p.main w0 = (r, w')) : FinalP cx Pg w0 r w' := by
+  have hwm : mainOk p = true := by
+    simp only [inFragmentR, Bool.and_eq_true] at hf
+    exact hf.1.1
+  exact main_graph_of cx (progOK_of_gen cx hg hf) (callPresent_of_gen cx hg) (genProg_main hg) hwm w0 fuel hev
 
 /-- from the result of the main tree to the outcome of `Src.runProg` -/
 theorem runProg_of_final {cx : Ctx} {p : Prog} {Pg : PProg} {w0 : World} {fuel : Nat} {r : Res} {w' : World}
